@@ -70,7 +70,11 @@ static void stream_pass(const uint8_t* in, size_t n, const struct cbor_callbacks
 }
 
 static void c01_case(const uint8_t* src, size_t n) {
-  uint8_t* in = vh_exact(src, n);
+  /* the start of the caller's buffer takes every alignment 0..15 over the cases (the end always abuts the red zone) */
+  void* in_base;
+  unsigned mis = (unsigned)(vh_hash(src, n) >> 17) & 15;
+  uint8_t* in = vh_exact_mis(src, n, mis, &in_base);
+  { static const char* const an[16] = {"input_alignment.0", "input_alignment.1", "input_alignment.2", "input_alignment.3", "input_alignment.4", "input_alignment.5", "input_alignment.6", "input_alignment.7", "input_alignment.8", "input_alignment.9", "input_alignment.10", "input_alignment.11", "input_alignment.12", "input_alignment.13", "input_alignment.14", "input_alignment.15"}; if ((vh_hash(src, n) & 1023) == 0) vh_count_dyn(an[mis], 1024); }
   ta_reset_stats();
   struct cbor_load_result r;
   memset(&r, 0xA5, sizeof r);
@@ -149,7 +153,14 @@ static void c01_case(const uint8_t* src, size_t n) {
   stream_pass(in, n, &cbor_empty_callbacks, false);
   stream_pass(in, n, &rec_table, true);
   if (rec_bad_ctx) vh_violation("stream-wrong-context", "a callback received a context pointer other than the caller's");
-  free(in);
+  if (n == 0) { /* the empty buffer may be represented by a null pointer */
+    struct cbor_load_result r0;
+    memset(&r0, 0xA5, sizeof r0);
+    cbor_item_t* i0 = cbor_load(NULL, 0, &r0);
+    if (i0 || r0.error.code != CBOR_ERR_NODATA) { vh_violation("null-empty-buffer", "cbor_load(NULL, 0) returned %s with code %d", i0 ? "an item" : "NULL", (int)r0.error.code); if (i0) cbor_decref(&i0); }
+    VH_COUNT("null_pointer_empty_buffer_calls", 1);
+  }
+  free(in_base);
   note_nontrivial(src, n, nontrivial);
 }
 
@@ -189,7 +200,8 @@ static void c0205_case(const uint8_t* src, size_t n) {
   struct rverdict Z = ref_decode(src, n, LIM, RM_LAZY, P == 2, &hs);
   struct rverdict E = Z;
   if (Z.code != RC_ACCEPT && n && (memchr(src, 0x5f, n) || memchr(src, 0x7f, n))) E = ref_decode(src, n, LIM, RM_EAGER, false, NULL);
-  uint8_t* in = vh_exact(src, n);
+  void* in_base;
+  uint8_t* in = vh_exact_mis(src, n, (unsigned)(vh_hash(src, n) >> 17) & 15, &in_base);
   ta_reset_stats();
   struct cbor_load_result r;
   memset(&r, 0xAA, sizeof r);
@@ -227,8 +239,8 @@ static void c0205_case(const uint8_t* src, size_t n) {
         if (au.hits) vh_violation("tree-refers-to-input", "%d pointer(s) in the returned tree point into the caller's input buffer", au.hits);
         /* the input may be overwritten and freed at once */
         memset(in, 0xDD, n);
-        free(in);
-        in = NULL;
+        free(in_base);
+        in = NULL; in_base = NULL;
         struct vh_buf a = {0}, b = {0};
         walk_dump_item(it, &a, 0);
         walk_dump_ref(Z.tree, &b);
@@ -317,7 +329,14 @@ static void c0205_case(const uint8_t* src, size_t n) {
   if (P == 2) { static const char* rnames[] = {"ref.ACCEPT", "ref.NOTENOUGHDATA", "ref.NODATA", "ref.MALFORMATED", "ref.MEMERROR", "ref.SYNTAXERROR"}; vh_count_dyn(rnames[Z.code], 1); }
   VH_MAX("max_heads_scanned", Z.heads);
   if (vh_sampling()) vh_sample_text("lib: %s@%zu read=%zu | ref: %s pos=%zu read=%zu", it ? "ITEM" : code_name((int)r.error.code), r.error.position, r.read, code_name(Z.code), Z.pos, Z.read);
-  free(in);
+  if (n == 0) { /* the empty buffer may be represented by a null pointer */
+    struct cbor_load_result r0;
+    memset(&r0, 0xA5, sizeof r0);
+    cbor_item_t* i0 = cbor_load(NULL, 0, &r0);
+    if (i0 || r0.error.code != CBOR_ERR_NODATA) { vh_violation("null-empty-buffer", "cbor_load(NULL, 0) returned %s with code %d", i0 ? "an item" : "NULL", (int)r0.error.code); if (i0) cbor_decref(&i0); }
+    VH_COUNT("null_pointer_empty_buffer_calls", 1);
+  }
+  free(in_base);
   if (Z.tree) rn_free(Z.tree);
   rheads_free(&hs);
   note_nontrivial(src, n, nontrivial);
@@ -340,7 +359,10 @@ static void c14_pair(const uint8_t* x, size_t nx, const uint8_t* y, size_t ny) {
     free(a); vb_free(&d);
     return;
   }
-  uint8_t* b = malloc(nx + ny);
+  /* x||y starts at a different alignment than x alone did */
+  unsigned bmis = 1 + ((unsigned)(vh_hash(x, nx) >> 11) % 15);
+  uint8_t* b_base = malloc(nx + ny + bmis);
+  uint8_t* b = b_base + bmis;
   memcpy(b, x, nx); if (ny) memcpy(b + nx, y, ny);
   cbor_item_t* ib = cbor_load(b, nx + ny, &rb);
   if (!ib) vh_violation("suffix-changes-acceptance", "x alone decodes (read=%zu) but x||y fails with %s at %zu", ra.read, code_name((int)rb.error.code), rb.error.position);
@@ -355,7 +377,7 @@ static void c14_pair(const uint8_t* x, size_t nx, const uint8_t* y, size_t ny) {
   }
   cbor_decref(&ia);
   if (ta_live_count()) { vh_violation("leak", "%zu block(s) left", ta_live_count()); ta_forget_all(); }
-  free(a); free(b);
+  free(a); free(b_base);
   vh_nontrivial(vh_hash(d.p, d.n));
   VH_COUNT("pairs_checked", 1);
   if (ny == 0) VH_COUNT("y.empty", 1); else if (ny == 1) VH_COUNT("y.single_byte", 1); else VH_COUNT("y.multi_byte", 1);
